@@ -236,6 +236,27 @@ fn trailer(src: &Src, edit: &TrailerEdit, sched: &DecSched, ring: Option<(u8, u3
         (Ok(_), true) => return Err(Violation::new("c09:bad-trailer-not-reported", format!("decompress_to_vec_zlib accepted a stream with a wrong checksum ({edit:?})"))),
         (Err(e), false) => return Err(Violation::new("c09:good-trailer-rejected", format!("{:?}", e.status))),
     }
+    // slice-iterator helper: one slice and several slices must give the same verdict
+    {
+        let mut cuts: Vec<usize> = sched.chunks.iter().scan(0usize, |acc, &c| { *acc = (*acc + c as usize).min(s.len()); Some(*acc) }).collect();
+        cuts.dedup();
+        let mut slices: Vec<&[u8]> = Vec::new();
+        let mut p = 0;
+        for c in cuts {
+            slices.push(&s[p..c]);
+            p = c;
+        }
+        slices.push(&s[p..]);
+        for (ignore, must_fail) in [(false, corrupted), (true, false)] {
+            let mut out = vec![0u8; expect_plain.len() + 1];
+            let r = guard(|| miniz_oxide::inflate::decompress_slice_iter_to_slice(&mut out, slices.iter().copied(), true, ignore)).map_err(|pm| Violation::new(panic_sig("slice_iter", &pm), format!("panic: {pm}")))?;
+            if must_fail {
+                vensure!(r == Err(TINFLStatus::Adler32Mismatch), "c09:bad-trailer-not-reported", "decompress_slice_iter_to_slice over {} slices with a corrupted trailer/body ({edit:?}): {:?}", slices.len(), r);
+            } else {
+                vensure!(r == Ok(expect_plain.len()) && out[..expect_plain.len()] == expect_plain[..], "c09:ignore-flag-not-honoured", "decompress_slice_iter_to_slice (ignore_adler32 = {ignore}) over {} slices: {:?}", slices.len(), r);
+            }
+        }
+    }
     for (fmt, must_fail) in [(DataFormat::Zlib, corrupted), (DataFormat::ZLibIgnoreChecksum, false)] {
         let mut st = InflateState::new_boxed(fmt);
         let r = inflate_loop_driver(&mut st, &s, &sched.chunks, &[300, 1, 70000], MZFlush::None, false)?;
